@@ -133,12 +133,59 @@ var _ time.Time // lemmas below name package time
 
 // ---- client-side cookie pool (Fetcher.data.Cookie) ----
 
-// The key exchange itself (TLS/QUIC dial, record stream) is not under contract: callers see an arbitrary result.
-//@ func (*Fetcher).FetchData
+// ---- key exchange (client) ----
+// Connection establishment and the request side are assumed: dialTLS yields a connection and fresh Data (server and
+// port only) or an error; the QUIC functions and the request/response exchange behave like ReadData on the
+// response stream (they end by calling it); ExportKeys fills the two keys or fails.
+//@ pred freshData(d) = (len(d.Cookie) == 0 && d.Algo == 0 && len(d.C2sKey) == 0 && len(d.S2cKey) == 0)
+
+//@ func dialTLS
 //@   trusted
-//@   requires f != nil
-//@   modifies f.data
 //@   allocates
+//@   ensures result2 == nil ==> result0 != nil && freshData(result1)
+//@ func dialQUIC
+//@   trusted
+//@   allocates
+//@   ensures result2 == nil ==> result0 != nil && result0.Connection != nil
+//@ func exchangeDataTLS
+//@   trusted
+//@   requires data != nil
+//@   modifies data.Cookie, data.Algo, data.Server, data.Port
+//@   allocates
+//@   ensures result == nil ==> len(data.Cookie) >= old(len(data.Cookie)) && sameslice(data.C2sKey, old(data.C2sKey)) && sameslice(data.S2cKey, old(data.S2cKey))
+//@ func exchangeDataQUIC
+//@   trusted
+//@   requires data != nil
+//@   modifies data.Cookie, data.Algo, data.Server, data.Port
+//@   allocates
+//@   ensures result == nil ==> len(data.Cookie) >= old(len(data.Cookie)) && sameslice(data.C2sKey, old(data.C2sKey)) && sameslice(data.S2cKey, old(data.S2cKey))
+//@ func ExportKeys
+//@   trusted
+//@   requires data != nil
+//@   modifies data.C2sKey, data.S2cKey
+//@   allocates
+//@ func logData
+//@   trusted
+
+// A key exchange starts from fresh data (so that on success the pool is exactly the cookies issued in it and the
+// algorithm is the one selected in it) and succeeds only with at least one cookie and AES-SIV-CMAC-256.
+//@ func (*Fetcher).exchangeKeys
+//@   noframe
+//@   split 0
+//@   requires f != nil && f.Log != nil
+//@   callsite exchangeDataTLS 0 requires freshData(f.data)
+//@   callsite exchangeDataQUIC 0 requires freshData(f.data)
+//@   ensures accepted: result == nil ==> len(f.data.Cookie) >= 1 && f.data.Algo == 15
+
+// A failed exchange leaves nothing behind that a later request would use; a successful call hands out one cookie,
+// which leaves the pool (single use).
+//@ func (*Fetcher).FetchData
+//@   noframe
+//@   requires f != nil && f.Log != nil
+//@   ensures failclean: result1 != nil ==> len(f.data.Cookie) == 0
+//@   ensures handout: result1 == nil ==> len(result0.Cookie) >= 1 && len(f.data.Cookie) == len(result0.Cookie)-1
+//@   ensures exchanged: result1 == nil && old(len(f.data.Cookie)) == 0 ==> result0.Algo == 15
+//@   ensures cached: result1 == nil && old(len(f.data.Cookie)) > 0 ==> len(result0.Cookie) == old(len(f.data.Cookie)) && result0.Algo == old(f.data.Algo)
 
 //@ func (*Fetcher).StoreCookie
 //@   requires f != nil
